@@ -220,7 +220,8 @@ def render_doc(doc: dict, style: int = 0) -> str:
     """Spell an abstract document as XML text, independently of xsdata.
     style 0: every namespace gets a prefix declared on the element that first needs it;
     style 1: the element's own namespace is the default namespace, others prefixed at the root;
-    style 2: as 0 with other prefix names, attributes in reverse order, whitespace between children."""
+    style 2: as 0 with other prefix names, attributes in reverse order, whitespace between children;
+    style 3: text as CDATA sections; style 4: text as numeric character references."""
     counter = {"n": 0}
 
     def fresh(scope):
@@ -267,7 +268,13 @@ def render_doc(doc: dict, style: int = 0) -> str:
         content = []
         for c in el["content"]:
             if "text" in c:
-                content.append(_esc(atoms_text(c["text"], lambda u: prefix_of(u) if u else "")))
+                raw = atoms_text(c["text"], lambda u: prefix_of(u) if u else "")
+                if style == 3 and raw:
+                    content.append("<![CDATA[" + raw.replace("]]>", "]]]]><![CDATA[>") + "]]>")
+                elif style == 4 and raw:
+                    content.append("".join(f"&#x{ord(ch):X};" for ch in raw))
+                else:
+                    content.append(_esc(raw))
             else:
                 content.append(None)
         kids = [walk(c["el"], scope, depth + 1) for c in el["content"] if "el" in c]
@@ -399,6 +406,8 @@ def faulted(doc: dict, fault: str, evs: list, m: dict):
         doc["content"].append({"el": copy.deepcopy(UNKNOWN)})
     elif fault == "unknownAttr":
         doc["attrs"].append([["", "zz-unknown"], [{"s": "1"}]])
+    elif fault == "xsiAttr":
+        doc["attrs"].append([[XSI, "noNamespaceSchemaLocation"], [{"s": "x.xsd"}]])
     elif fault == "badValue":
         k = next(i for i, e in enumerate(evs, 1) if e["e"] == "end" and e.get("badValue"))
         el = dict(_elements_by_end(doc))[k]
